@@ -233,12 +233,14 @@ def loss_case(rnd, ncalls, timers, explicit, introspected, dup_cb, local=False):
         proxies.append(('explicit%d' % k, got))
     for k in range(introspected):
         got = []
+        before_ = set(conn._pendingCalls)
         d = conn.getRemoteObject('org.e', '/p')
         d.addBoth(got.append)
-        # answer the Introspect call
-        calls = [s for s in conn._pendingCalls]
+        # answer the Introspect call (if one was issued: an implementation may remember what it learnt about an object)
+        calls = [s for s in conn._pendingCalls if s not in before_]
         xml = '<node><interface name="org.verif.Q"><method name="M"/></interface></node>'
-        conn.dataReceived(message.MethodReturnMessage(max(calls), signature='s', body=[xml]).rawMessage)
+        for s_ in calls:
+            conn.dataReceived(message.MethodReturnMessage(s_, signature='s', body=[xml]).rawMessage)
         proxies.append(('introspected%d' % k, got))
     for name, got in proxies:
         if len(got) != 1 or isinstance(got[0], failure.Failure):
